@@ -249,6 +249,13 @@ const defaultMaxSamples = 6
 // deterministic selection spread over the sources.
 func (e *entry) load() ([]sample, error) {
 	e.once.Do(func() {
+		// leaf types occur in nearly every source: two are enough (and keep the runs per shard few)
+		switch e.family {
+		case famCurves, famNumbers, famShares:
+			if len(e.sources) > 2 {
+				e.sources = e.sources[:2]
+			}
+		}
 		for _, sn := range e.sources {
 			s := sources[sn]
 			if s == nil {
